@@ -356,6 +356,9 @@ class Ref:
                 err, adopt = X.writes[key](sl)
                 if err:
                     mm.append(Mismatch("value", op, f"{key[1]}: {err}", lineno))
+                    # a writer that returned normally and left something that is not a curve point at all (C12), e.g. (0:0:0:0)
+                    if key[0] == "P" and not getattr(X, "junk", False) and adopt != UNINIT and not sl.valid:
+                        mm.append(Mismatch("invalid-point", op, f"{key[1]} is not a valid curve point: {sl.raw}", lineno))
                     # continue from what the implementation holds, so one defect is reported once
                     self.adopt_raw(key, sl)
                     self.raw[key] = sl.raw
